@@ -8,6 +8,7 @@ import Model.Spec.Format
 import Proofs.Lemmas.C02Store
 import Proofs.Lemmas.C02Spec
 import Proofs.Lemmas.C02Files
+import Proofs.Lemmas.C02Reader
 
 namespace C02
 open Fmt Spec.Format
@@ -154,5 +155,124 @@ distinct labels `a#0 b a#1`; `a a a#0` (N4) does not, and its first and third la
 example : labels [[97], [98], [97]] false = [[97, 35, 48], [98], [97, 35, 49]] := by decide
 example : labels [[97], [97], [97, 35, 48]] false = [[97, 35, 48], [97, 35, 49], [97, 35, 48]] := by
   decide
+
+/-! ## The reader against the specification -/
+
+/-- **reader_refines_spec.** For every text, every file name and every instantiation of the
+parameters (Unicode tables, number parsers, unit tidying), the records the model reader
+delivers are the specification's records, line for line and in order, up to reading each
+result's `Config` list as a map; every `Config` list has pairwise distinct keys (so it *is* a
+map); and the unit metadata accumulated at the end is the specification's. Hence: 1-based line
+numbers, the latest value per key, removal of keys set to the empty value, positioned errors,
+and nothing from ignored lines.
+(The token-level grammar of a single line is shared between model and specification, see
+`Model/Spec/Format.lean`; what is proved is everything between lines.) -/
+theorem reader_refines_spec (O : Oracles) (fileName text : Bytes) :
+    (readAll O fileName text).map Rec.abs = (read O fileName [] [] text).1.map SRec.abs ∧
+    (∀ r, Rec.result r ∈ readAll O fileName text → (r.config.map Cfg.key).Nodup) ∧
+    (finalState O (RState.zero.reset fileName []) (splitLines text)).units =
+      (read O fileName [] [] text).2 := by
+  have hl := reset_linked RState.zero fileName []
+  obtain ⟨h1, h2, _, _⟩ := readLines_refines O (splitLines text) _ _ hl
+  refine ⟨?_, ?_, ?_⟩
+  · unfold readAll read
+    rw [h1, lines_eq]; rfl
+  · exact readLines_nodup O (splitLines text) _ _ hl
+  · unfold read
+    rw [h2, lines_eq]; rfl
+
+/-- **scan_iterates.** `Scan`/`Result` with the `q`/`qPos` queue is an iterator over
+`readLines`: with `pending r` = the unread part of the queue followed by the records of the
+unread lines, a successful `Scan` delivers the head of `pending` and leaves its tail, and `Scan`
+reports false exactly when nothing is pending. No fuel: `fill` recurses on the line list. -/
+theorem scan_iterates (O : Oracles) (r : Reader) :
+    ((r.scan O).2 = true →
+        (r.scan O).1.result = (Reader.pending O r).head? ∧
+        Reader.pending O (r.scan O).1 = (Reader.pending O r).tail ∧ Reader.pending O r ≠ []) ∧
+    ((r.scan O).2 = false → Reader.pending O r = []) := by
+  unfold Reader.scan
+  by_cases hq : r.qPos + 1 < r.q.length
+  · simp only [hq, ↓reduceIte, Reader.pending, Reader.result]
+    have hd : r.q.drop (r.qPos + 1) = r.q[r.qPos + 1] :: r.q.drop (r.qPos + 1 + 1) :=
+      List.drop_eq_getElem_cons hq
+    refine ⟨fun _ => ?_, fun h => by simp at h⟩
+    rw [hd]
+    simp [List.getElem?_eq_getElem hq]
+  · simp only [hq, ↓reduceIte, Reader.pending, Reader.result]
+    have hd : r.q.drop (r.qPos + 1) = [] := List.drop_eq_nil_of_le (by omega)
+    have hf := fill_spec O r.lines r.st
+    rw [hd, List.nil_append, ← hf]
+    cases hq2 : (fill O r.st r.lines).2.2 with
+    | nil =>
+      have := fill_empty O r.lines r.st hq2
+      simp [this, readLines]
+    | cons a q => simp
+
+/-- The queue model started on a text has exactly `readAll` pending. -/
+theorem pending_new (O : Oracles) (fileName text : Bytes) :
+    Reader.pending O (Reader.new text fileName) = readAll O fileName text := rfl
+
+/-! ## Several files through one reader -/
+
+/-- **files_no_leak** (and **units_carry**). Whatever state the reused reader is in when a
+sequence of inputs starts — live configuration, stale slots, line counter, file name left by
+earlier files — the records of the sequence are the specification's: every file is read as if
+on its own, under its own label, from an empty configuration; the one thing handed from file to
+file (and the only way `st` enters the right-hand side) is the unit metadata `st.units`.
+An input that cannot be opened ends both runs at the same point. -/
+theorem files_no_leak (O : Oracles) (fs : FS) (inputs : List Input) :
+    ∀ (st : RState) (stdin : Bytes),
+      let out := Files.runFrom O fs st stdin inputs
+      let sp := readFiles O fs st.units stdin (inputs.map fun i => (i.label, i.path, i.isStdin))
+      out.recs.map Rec.abs = sp.recs.map SRec.abs ∧ out.failed = sp.failed ∧
+        out.st.units = sp.units := by
+  induction inputs with
+  | nil => intro st stdin; exact ⟨rfl, rfl, rfl⟩
+  | cons inp rest ih =>
+    intro st stdin
+    simp only [Files.runFrom, readFiles, List.map_cons]
+    cases hc : (if inp.isStdin = true then some stdin else fs.open inp.path) with
+    | none => exact ⟨rfl, rfl, rfl⟩
+    | some text =>
+      simp only
+      have hl := reset_linked st inp.path [(dotFile, inp.label)]
+      obtain ⟨h1, h2, _, _⟩ := readLines_refines O (splitLines text) _ _ hl
+      have hread : read O inp.path (CMap.assign [] dotFile inp.label false) st.units text =
+          readFrom O (st.reset inp.path [(dotFile, inp.label)]).fileName
+            (List.foldl (fun m kv => CMap.assign m kv.1 kv.2 false) [] [(dotFile, inp.label)])
+            (st.reset inp.path [(dotFile, inp.label)]).units
+            ((st.reset inp.path [(dotFile, inp.label)]).line + 1) (splitLines text) := by
+        unfold read; rw [lines_eq]; rfl
+      rw [hread]
+      have := ih (finalState O (st.reset inp.path [(dotFile, inp.label)]) (splitLines text))
+        (if inp.isStdin = true then [] else stdin)
+      rw [h2] at this
+      obtain ⟨g1, g2, g3⟩ := this
+      refine ⟨?_, g2, g3⟩
+      simp only [List.map_append]
+      rw [h1, g1]
+
+/-- The inputs `Files.init` produces are the inputs of the specification (labels by
+`files_labels`), so a whole `Files` run refines `readFiles` on the specification's inputs. -/
+theorem files_refine_spec (O : Oracles) (fs : FS) (paths : List Bytes) (allowStdin allowLabels : Bool) :
+    let out := Files.run O fs paths allowStdin allowLabels
+    let sp := readFiles O fs [] fs.stdin
+      ((Files.init paths allowStdin allowLabels).map fun i => (i.label, i.path, i.isStdin))
+    out.recs.map Rec.abs = sp.recs.map SRec.abs ∧ out.failed = sp.failed ∧ out.st.units = sp.units :=
+  files_no_leak O fs _ RState.zero fs.stdin
+
+/-- **units_carry.** Unit metadata, once set, is never changed or dropped: not by any later
+line, and not by `Reset` (which wipes the configuration). -/
+theorem units_carry (O : Oracles) (st : RState) (l : Bytes) (fn : Bytes) (kvs : List (Bytes × Bytes)) :
+    (∃ more, (scanLine O st l).1.units = st.units ++ more) ∧ (st.reset fn kvs).units = st.units := by
+  refine ⟨?_, rfl⟩
+  unfold scanLine
+  simp only
+  split
+  · split <;> exact ⟨[], by simp⟩
+  · split
+    · simp only
+      exact parseUnitLine_extends O _ _ _ _
+    · split <;> exact ⟨[], by simp⟩
 
 end C02
